@@ -27,6 +27,7 @@ import (
 	"github.com/google/osv-scalibr/extractor/filesystem/os/nix"
 	"github.com/google/osv-scalibr/extractor/filesystem/os/pacman"
 	"github.com/google/osv-scalibr/extractor/filesystem/os/portage"
+	"github.com/google/osv-scalibr/extractor/filesystem/simplefileapi"
 	"github.com/google/osv-scalibr/internal/verifrt"
 	"github.com/google/osv-scalibr/internal/verifrt/symfs"
 )
@@ -78,6 +79,8 @@ var templates = map[string]string{
 	"setup":          "setup(\n  install_requires=[\n    'a==1.0',\n    \"b>=2\",\n  ],\n)\n",
 	"wheelegg":       "Metadata-Version: 2.1\nName: a\nVersion: 1.0\nAuthor: x\n\nbody\n",
 	"wordpress":      "<?php\n/*\n * Plugin Name: A\n * Version: 1.0\n */\n",
+	"homebrew":       "{}\n",
+	"nix":            "x",
 	"os-release":     "ID=debian\n# c\nVERSION_ID=\"12\"\nVERSION_CODENAME=b\n",
 }
 
@@ -197,6 +200,55 @@ func VerifOSRelease() {
 		FS:     fsys,
 		Path:   t.path,
 		Info:   info{name: t.path, size: int64(len(tpl))},
+		Reader: bytes.NewReader(tpl),
+	})
+	if err != nil {
+		verifrt.Reach("error")
+	} else {
+		verifrt.Reach("ok")
+	}
+	verifrt.ObserveInt("packages", len(inv.Packages))
+	for _, p := range inv.Packages {
+		verifrt.Assert(len(p.Locations) > 0, "an emitted package has at least one location")
+		p.Extractor = e
+		if u := e.ToPURL(p); u != nil {
+			verifrt.Assert(u.Type != "", "an emitted package's PURL has a type")
+		}
+	}
+}
+
+// VerifPath: the path is an input of Extract too ("any path the extractor accepts"). The canonical
+// path of the format with a window of k arbitrary bytes (or cut off there); if FileRequired
+// accepts it, Extract on the well-formed template must not panic.
+func VerifPath() {
+	name := verifrt.ParamStr("extractor")
+	t := targets[name]
+	tpl := []byte(templates[name])
+	k := verifrt.Param("k")
+	base := []byte(t.path)
+	pos := verifrt.Choice("position", len(base))
+	truncate := verifrt.Choice("truncate", 2) == 1
+	p := append([]byte{}, base[:pos]...)
+	hole := verifrt.Bytes("hole", k)
+	for i := range hole {
+		verifrt.Assume(hole[i] != 0)
+	}
+	p = append(p, hole...)
+	if !truncate && pos+k < len(base) {
+		p = append(p, base[pos+k:]...)
+	}
+	path := string(p)
+	fsys := &symfs.FS{Root: symfs.Dir(".", symfs.Dir("etc", symfs.File("os-release", "ID=debian\nVERSION_ID=12\n")))}
+	e := t.mk()
+	if !e.FileRequired(simplefileapi.New(path, info{name: path, size: int64(len(tpl))})) {
+		verifrt.Reach("not-required")
+		return
+	}
+	verifrt.Reach("required")
+	inv, err := e.Extract(context.Background(), &filesystem.ScanInput{
+		FS:     fsys,
+		Path:   path,
+		Info:   info{name: path, size: int64(len(tpl))},
 		Reader: bytes.NewReader(tpl),
 	})
 	if err != nil {
